@@ -1,6 +1,7 @@
 (* C12 tie: goom has five kinds of function / method / interface mockers that share one base mocker; the property
    (the most recent instruction wins, a re-applied mocker is live again) needs every kind to do the same two things:
-   - every Apply discards the stale When BEFORE it installs the callback;
+   - every Apply discards the stale When, and does so only AFTER the callback was installed (an Apply that goom refuses
+     panics before that line, so the mock that stays installed keeps its configuration: defect F12d);
    - every applyBy* of the base mocker installs the guard, records the callback and clears the cancelled mark.
    The skeletons are regenerated from mocker.go / iface.go by go2v on every run. (The two defects F12b and F12c were
    exactly one kind diverging from its siblings.) *)
@@ -19,6 +20,12 @@ Definition before (a : string) (bpre : string) (l : list string) : bool :=
   | _, _ => false
   end.
 
+Definition after (a : string) (bpre : string) (l : list string) : bool :=
+  match index_of (String.eqb a) l 0, index_of (String.prefix bpre) l 0 with
+  | Some i, Some j => Nat.ltb j i
+  | _, _ => false
+  end.
+
 Definition apply_skeletons : list (list string) :=
   [DefMocker_Apply_skeleton; MethodMocker_Apply_skeleton; UnexportedMethodMocker_Apply_skeleton;
    UnexportedFuncMocker_Apply_skeleton; DefaultInterfaceMocker_Apply_skeleton].
@@ -32,7 +39,7 @@ Definition installs (l : list string) : bool :=
 
 Definition apply_ok (l : list string) : bool :=
   has "m.when = nil" l && installs l &&
-  (before "m.when = nil" "m.doApply(" l || before "m.when = nil" "m.applyBy" l).
+  (after "m.when = nil" "m.doApply(" l || after "m.when = nil" "m.applyBy" l).
 
 Definition applyby_ok (l : list string) : bool :=
   has "m.guard.Apply()" l && has "m.imp = callback" l && has "m.canceled = false" l && negb (has "m.canceled = true" l).
